@@ -940,6 +940,24 @@ func (r *runner) run(dir string) scenResult {
 		case "fsizeunlimit":
 			syscall.Setrlimit(syscall.RLIMIT_FSIZE, &r.oldFsize)
 			atomic.StoreInt32(&ioFaultWindow, 0)
+		case "stampnow": // the user's record gets the current second as its last-change time (taken early in a wall-clock second)
+			for time.Now().Nanosecond() > 150e6 {
+				time.Sleep(5 * time.Millisecond)
+			}
+			for _, ext := range []string{".user", ".admin"} {
+				fn := filepath.Join(r.base, s.U+ext)
+				if b, err := os.ReadFile(fn); err == nil {
+					nl := bytes.IndexByte(b, '\n')
+					if nl < 0 {
+						nl = len(b)
+					}
+					f := strings.Split(string(b[:nl]), ":")
+					if len(f) == 5 {
+						f[1] = fmt.Sprint(time.Now().Unix())
+						os.WriteFile(fn, append([]byte(strings.Join(f, ":")), b[nl:]...), 0600)
+					}
+				}
+			}
 		case "extupdate": // another process (a CLI command beside the agent) changes a password through the library, not the agent
 			if xd, err := lib.NewDirFromConfig(r.cfg); err == nil {
 				xd.UpdateUser(s.U, r.sc.Passwords[s.P])
